@@ -2,6 +2,12 @@ package main
 
 import (
 	"encoding/hex"
+	"encoding/json"
+	"math"
+	"strconv"
+	"strings"
+
+	"verif/harness/vrun"
 
 	"github.com/php-any/origami/data"
 	"github.com/php-any/origami/std/php"
@@ -37,4 +43,52 @@ func unserCase(c *Case) map[string]any {
 		return map[string]any{"err": e}
 	}
 	return map[string]any{"val": valueJSON(r)}
+}
+
+// {"k":"ftext","v":["<bits>",...]}: canonical texts of floats given by bit pattern
+func ftextCase(c *Case) map[string]any {
+	var bits []string
+	_ = json.Unmarshal(c.V, &bits)
+	out := make([]string, len(bits))
+	for i, b := range bits {
+		u, _ := strconv.ParseUint(b, 10, 64)
+		out[i] = hex.EncodeToString([]byte(floatText(math.Float64frombits(u))))
+	}
+	return map[string]any{"texts": out}
+}
+
+// {"k":"fcanon","v":["<hex text>",...]}: the canonical text of the float a decimal text denotes
+// (strconv.ParseFloat, range errors give +-Inf / 0), or "" when strconv rejects the text
+func fcanonCase(c *Case) map[string]any {
+	var texts []string
+	_ = json.Unmarshal(c.V, &texts)
+	out := make([]string, len(texts))
+	for i, h := range texts {
+		b, _ := hex.DecodeString(h)
+		s := string(b)
+		var f float64
+		switch s {
+		case "INF":
+			f = math.Inf(1)
+		case "-INF":
+			f = math.Inf(-1)
+		case "NAN":
+			f = math.NaN()
+		default:
+			var err error
+			f, err = strconv.ParseFloat(s, 64)
+			if err != nil && !strings.Contains(err.Error(), "out of range") {
+				out[i] = ""
+				continue
+			}
+		}
+		out[i] = hex.EncodeToString([]byte(floatText(f)))
+	}
+	return map[string]any{"canon": out}
+}
+
+// {"k":"ser.object"}: serialize() / unserialize() of a class instance through a real script
+func serObject(c *Case) map[string]any {
+	res := vrun.RunString("<?php\nclass C14P { public $a = 1; public $b = 'x'; }\n$s = serialize(new C14P());\necho $s, '|', gettype(unserialize($s));\n", "c14obj.php")
+	return map[string]any{"outcome": res.Outcome, "out": strings.TrimSpace(res.Out), "detail": res.Detail}
 }
